@@ -87,20 +87,139 @@ func buildRaw(tag int) []byte {
 
 var subjRE = regexp.MustCompile(`^subj (\d+)$`)
 
-// tagOf recovers the content tag from a subject and checks the other metadata against it.
+// Metadata shapes. What the store is told about a message (event.MessageMetadata) is a function of the content
+// tag; tags below 400 have the plain shape (one sender, one recipient, a subject), tags from 400 on exercise
+// empty and long metadata. The source (buildRaw) keeps its plain MIME header in every shape.
+//
+//	1: To = []          2: From = empty address     3: Subject = ""     4: To = [one empty address]
+//	5: To = 60 addresses     6: To = [] and Subject = ""     7: From = empty address and To = []
+func shapeOf(tag int) int {
+	if tag < 400 {
+		return 0
+	}
+	return 1 + (tag/4)%7
+}
+
+const longTo = 60
+
+func metaFrom(tag int) *mail.Address {
+	switch shapeOf(tag) {
+	case 2, 7:
+		return &mail.Address{}
+	}
+	return &mail.Address{Address: tagFrom(tag)}
+}
+
+func metaTo(tag int) []*mail.Address {
+	switch shapeOf(tag) {
+	case 1, 6, 7:
+		return []*mail.Address{}
+	case 4:
+		return []*mail.Address{{}}
+	case 5:
+		l := make([]*mail.Address, longTo)
+		for i := range l {
+			l[i] = &mail.Address{Address: fmt.Sprintf("t%d-%d@dst.example", tag, i)}
+		}
+		return l
+	}
+	return []*mail.Address{{Address: tagTo(tag)}}
+}
+
+func metaSubject(tag int) string {
+	switch shapeOf(tag) {
+	case 3, 6:
+		return ""
+	}
+	return tagSubject(tag)
+}
+
+var (
+	metaFromRE = regexp.MustCompile(`^<f(\d+)@src\.example>$`)
+	metaToRE   = regexp.MustCompile(`^<t(\d+)(?:-0)?@dst\.example>$`)
+)
+
+func sameList(a, b []string) bool {
+	if len(a) != len(b) {
+		return false
+	}
+	for i := range a {
+		if a[i] != b[i] {
+			return false
+		}
+	}
+	return true
+}
+
+// refTag: the content tag as read from the first metadata field that names one (subject, sender, first recipient).
+func refTag(subject, from string, to []string) (int, bool) {
+	for _, m := range [][]string{subjRE.FindStringSubmatch(subject), metaFromRE.FindStringSubmatch(from)} {
+		if m != nil {
+			t, _ := strconv.Atoi(m[1])
+			return t, true
+		}
+	}
+	if len(to) > 0 {
+		if m := metaToRE.FindStringSubmatch(to[0]); m != nil {
+			t, _ := strconv.Atoi(m[1])
+			return t, true
+		}
+	}
+	return 0, false
+}
+
+// The tag as read from ONE field: the tag the field itself names if it is exactly what a message of that tag has
+// there; a field that names no tag (empty sender / recipient list / subject) is read as the tag the other fields
+// name, provided that is what a message of that tag has there. Everything else is BAD.
+func fromFieldTag(from string, ref int, refOK bool) string {
+	if m := metaFromRE.FindStringSubmatch(from); m != nil {
+		ref, refOK = vh.AtoI(m[1]), true
+	}
+	if refOK && from == stringutil.StringAddress(metaFrom(ref)) {
+		return strconv.Itoa(ref)
+	}
+	return "BAD"
+}
+
+func toFieldTag(to []string, ref int, refOK bool) string {
+	if len(to) > 0 {
+		if m := metaToRE.FindStringSubmatch(to[0]); m != nil {
+			ref, refOK = vh.AtoI(m[1]), true
+		}
+	}
+	if refOK && sameList(to, stringutil.StringAddressList(metaTo(ref))) {
+		return strconv.Itoa(ref)
+	}
+	return "BAD"
+}
+
+func subjFieldTag(subject string, ref int, refOK bool) string {
+	if m := subjRE.FindStringSubmatch(subject); m != nil {
+		ref, refOK = vh.AtoI(m[1]), true
+	}
+	if refOK && subject == metaSubject(ref) {
+		return strconv.Itoa(ref)
+	}
+	return "BAD"
+}
+
+// tagOf recovers the content tag from the metadata and checks every field against it.
 func tagOf(subject, from string, to []string) string {
-	m := subjRE.FindStringSubmatch(subject)
-	if m == nil {
+	ref, ok := refTag(subject, from, to)
+	if !ok {
 		return "BADSUBJ"
 	}
-	tag, _ := strconv.Atoi(m[1])
-	if from != "<"+tagFrom(tag)+">" {
+	t := strconv.Itoa(ref)
+	if subjFieldTag(subject, ref, true) != t {
+		return "BADSUBJ"
+	}
+	if fromFieldTag(from, ref, true) != t {
 		return "BADFROM"
 	}
-	if len(to) != 1 || to[0] != "<"+tagTo(tag)+">" {
+	if toFieldTag(to, ref, true) != t {
 		return "BADTO"
 	}
-	return m[1]
+	return t
 }
 
 // ---------------------------------------------------------------- recording manager
@@ -619,10 +738,10 @@ func (e *env) doAdd(parts []string) string {
 	d := &message.Delivery{
 		Meta: event.MessageMetadata{
 			Mailbox: mb,
-			From:    &mail.Address{Address: tagFrom(tag)},
-			To:      []*mail.Address{{Address: tagTo(tag)}},
+			From:    metaFrom(tag),
+			To:      metaTo(tag),
 			Date:    time.UnixMilli(date),
-			Subject: tagSubject(tag),
+			Subject: metaSubject(tag),
 		},
 		Reader: bytes.NewReader(raw),
 	}
